@@ -114,6 +114,35 @@ def minusFolds : Scalar → Bool
   | .int32 | .intLiteral | .float16 | .floatLiteral | .float32 | .float64 => true
   | _ => false
 
+/-- `check_mutable_place` (fix 4575004) on the old fragment of `ir::Expression`: the type the IR gives the written expression
+    (`get_type`, not the type the elaboration computed) must be an lvalue and must not be const (`TypeRegistry::is_const`; the
+    old fragment has no array types).  None of the nodes of the old fragment is a projection, so the loop ends after one
+    step (`_ => return Ok(())`); `Model.ElabX.checkMutablePlace` is the loop over the extended fragment. -/
+def checkMutablePlace (Γ : Env) (e : IExpr) : Except Err Unit :=
+  match typeOf Γ e with
+  | .error _ => .error (.reject "InternalError")
+  | .ok τ =>
+    if τ.vt ≠ .lvalue then .error (.reject "LvalueRequired")
+    else if τ.ty.mod.isConst then .error (.reject "MutableRequired")
+    else .ok ()
+
+/-- `matches!(param_type.input_modifier, InputModifier::Out | InputModifier::InOut)` of `check_output_arguments` -/
+def isOutputParam : InputModifier → Bool
+  | .out => true
+  | .inOut => true
+  | _ => false
+
+/-- `check_output_arguments` (fixes b359800, 3758fdd): the arguments given for `out` / `inout` parameters — **after**
+    `apply_casts` — must name mutable objects; `zip` stops at the shorter list (default arguments) -/
+def checkOutArgs (Γ : Env) : List Param → IArgs → Except Err Unit
+  | p :: ps, .cons e r =>
+    if isOutputParam p.io then
+      match checkMutablePlace Γ e with
+      | .error m => .error m
+      | .ok _ => checkOutArgs Γ ps r
+    else checkOutArgs Γ ps r
+  | _, _ => .ok ()
+
 /-- `enforce_increment_type` -/
 def enforceIncrement (τ : ETy) : Except Err Unit :=
   if τ.vt = .rvalue then .error (.reject "UnaryOperationWrongTypes")
@@ -138,25 +167,37 @@ def castOperand (onFail : Err) (e : IExpr) (τ inp : ETy) : Except Err IExpr :=
 def unwrapPanic : Err := .panic "expressions.rs: called `Result::unwrap()` on an `Err` value"
 
 /-- `parse_expr_unaryop` after the operand has been elaborated -/
-def elabUn (o : UnOp) (e : IExpr) (τ : ETy) : Res :=
+def elabUn (Γ : Env) (o : UnOp) (e : IExpr) (τ : ETy) : Res :=
   let unmodR : ETy := τ.ty.unmod.r
   match o with
   | .prefixIncrement =>
     match enforceIncrement τ with
     | .error m => .error m
-    | .ok _ => .ok ((.op .prefixIncrement (.cons e .nil)), τ)
+    | .ok _ =>
+      match checkMutablePlace Γ e with
+      | .error m => .error m
+      | .ok _ => .ok ((.op .prefixIncrement (.cons e .nil)), τ)
   | .prefixDecrement =>
     match enforceIncrement τ with
     | .error m => .error m
-    | .ok _ => .ok ((.op .prefixDecrement (.cons e .nil)), τ)
+    | .ok _ =>
+      match checkMutablePlace Γ e with
+      | .error m => .error m
+      | .ok _ => .ok ((.op .prefixDecrement (.cons e .nil)), τ)
   | .postfixIncrement =>
     match enforceIncrement τ with
     | .error m => .error m
-    | .ok _ => .ok ((.op .postfixIncrement (.cons e .nil)), unmodR)
+    | .ok _ =>
+      match checkMutablePlace Γ e with
+      | .error m => .error m
+      | .ok _ => .ok ((.op .postfixIncrement (.cons e .nil)), unmodR)
   | .postfixDecrement =>
     match enforceIncrement τ with
     | .error m => .error m
-    | .ok _ => .ok ((.op .postfixDecrement (.cons e .nil)), unmodR)
+    | .ok _ =>
+      match checkMutablePlace Γ e with
+      | .error m => .error m
+      | .ok _ => .ok ((.op .postfixDecrement (.cons e .nil)), unmodR)
   | .plus =>
     match τ.ty.layer with
     | .enum _ => .error (.unsupported "enum operand")
@@ -226,6 +267,10 @@ def arithTarget (o : BinOp) (la lb : Layer) : Except Err Layer :=
           -- `Remap all bool types to int`
           if t.extractScalar = some .bool then .ok (.scalar .int32) else .ok t
 
+/-- the second `target_nv_id` of `parse_expr_binop` (fix 40c6233): a vector / matrix operation is never done in an untyped
+    literal kind — `IntLiteral` becomes `int`, `FloatLiteral` becomes `float` (table `Gen.TypingTables.litVecRemap`) -/
+def arithScalar (ts : Scalar) (dim : Dim) : Scalar := if dim ≠ .scalar then litVecRemap ts else ts
+
 /-- the rest of the arithmetic arm once both operands are known to convert to `ety`: the two targets must agree
     (`assert_eq!`), the casts are applied, `get_return_type` gives the result type -/
 def arithBuild (o : BinOp) (ca cb : Conversion) (a b : IExpr) : Res :=
@@ -261,20 +306,23 @@ def elabArith (o : BinOp) (a : IExpr) (τa : ETy) (b : IExpr) (τb : ETy) : Res 
       match selectVectorRank la lb with
       | none => .error (.reject "BinaryOperationWrongTypes")
       | some dim =>
-        match find τa (Ty.mk {} (Layer.ofDim ts dim)).r with
+        match find τa (Ty.mk {} (Layer.ofDim (arithScalar ts dim) dim)).r with
         | .error m => .error (.panic m)
         | .ok none => .error (.reject "BinaryOperationWrongTypes")
         | .ok (some ca) =>
-          match find τb (Ty.mk {} (Layer.ofDim ts dim)).r with
+          match find τb (Ty.mk {} (Layer.ofDim (arithScalar ts dim) dim)).r with
           | .error m => .error (.panic m)
           | .ok none => .error (.reject "BinaryOperationWrongTypes")
           | .ok (some cb) => arithBuild o ca cb a b
     | .ok _ => .error (.unsupported "non-scalar operator type")
 
 /-- the assignment arm of `parse_expr_binop` -/
-def elabAssign (o : BinOp) (a : IExpr) (τa : ETy) (b : IExpr) (τb : ETy) : Res :=
+def elabAssign (Γ : Env) (o : BinOp) (a : IExpr) (τa : ETy) (b : IExpr) (τb : ETy) : Res :=
   if τa.ty.mod.isConst then .error (.reject "MutableRequired") else
   if τa.vt ≠ .lvalue then .error (.reject "LvalueRequired") else
+  match checkMutablePlace Γ a with
+  | .error m => .error m
+  | .ok _ =>
   match convert b τb τa.ty.r with
   | .error m => .error m
   | .ok none => .error (.reject "BinaryOperationWrongTypes")
@@ -289,11 +337,18 @@ def elabAssign (o : BinOp) (a : IExpr) (τa : ETy) (b : IExpr) (τb : ETy) : Res
 /-- `most_sig_scalar` -/
 def mostSigScalar (l r : Scalar) : Scalar := if mostSigOrder l > mostSigOrder r then l else r
 
+/-- the second `st` of `parse_expr_ternary` (fix c05bffa): unless both arms are `Scalar` layers (`is_scalar_result`) an
+    untyped literal kind is replaced by the concrete one (table `Gen.TypingTables.litTernRemap`) -/
+def ternScalar (la lb : Layer) (s : Scalar) : Scalar :=
+  match la, lb with
+  | .scalar _, .scalar _ => s
+  | _, _ => litTernRemap s
+
 /-- the unmodified types both arms of `?:` are compared at (`lhs_target_tyl`, `rhs_target_tyl`) -/
 def ternTargets (la lb : Layer) : Except Err (Layer × Layer) :=
   let st : Option Scalar :=
     match la.extractScalar, lb.extractScalar with
-    | some l, some r => some (mostSigScalar l r)
+    | some l, some r => some (ternScalar la lb (mostSigScalar l r))
     | _, _ => none
   match st, mostSignificantDimension la lb with
   | some s, some d => .ok (Layer.ofDim s d, Layer.ofDim s d)
@@ -373,7 +428,10 @@ def elabCall (Γ : Env) (name : Nat) (args : IArgs) (ts : List ETy) : Res :=
     | some s =>
       match castArgs s.params args ts with
       | .error m => .error m
-      | .ok args' => .ok ((.call id args'), s.ret.r)
+      | .ok args' =>
+        match checkOutArgs Γ s.params args' with
+        | .error m => .error m
+        | .ok _ => .ok ((.call id args'), s.ret.r)
 
 mutual
 /-- `parse_expr_internal` -/
@@ -386,7 +444,7 @@ def elabE (dbg : Bool) (Γ : Env) : SExpr → Res
   | .un o e =>
     match elabE dbg Γ e with
     | .error m => .error m
-    | .ok (e', τ) => (match elabUn o e' τ with
+    | .ok (e', τ) => (match elabUn Γ o e' τ with
       | .error m => .error m
       | .ok (n, τ') => selfCheck dbg Γ n τ')
   | .bin o a b =>
@@ -402,7 +460,7 @@ def elabE (dbg : Bool) (Γ : Env) : SExpr → Res
           | .error m => .error m
           | .ok (n, τ) => selfCheck dbg Γ n τ
         | .assign =>
-          match elabAssign o a' τa b' τb with
+          match elabAssign Γ o a' τa b' τb with
           | .error m => .error m
           | .ok (n, τ) => selfCheck dbg Γ n τ
         | .sequence => selfCheck dbg Γ (.seq a' b') τb
